@@ -355,6 +355,9 @@ class ScriptPubKey(Script):
     @classmethod
     def parse(cls, s):
         script_pubkey = super().parse(s)
+        if script_pubkey.raw is not None:
+            # malformed pushes: keep the original bytes, this is not a standard script
+            return script_pubkey
         if script_pubkey.is_p2pkh():
             return P2PKHScriptPubKey(script_pubkey.commands[2])
         elif script_pubkey.is_p2sh():
